@@ -4,6 +4,7 @@ CONSTANTS
   HeadTokens = {1, 2, 3, 6, 7, 8}
   MaxPfxLen = 1
   MaxCmdLen = 1
+  CrossHeads = TRUE
   ArgTokens = {1, 2, 3, 4, 5, 6, 7, 8}
   MaxArgs = 2
   MaxLen = 2
